@@ -253,6 +253,21 @@ def relevant_impls(prop, item, impls):
     return [(n, t) for n, t in impls if n in tr]
 
 
+ALPHA = re.compile(r'^__\w*$')
+
+
+def alpha(toks, keep=()):
+    """Rename every `__`-prefixed identifier token that the item does not itself contain to `__v<n>` in order of first
+    occurrence."""
+    names = {}
+    out = []
+    for t in toks.split(' '):
+        if ALPHA.match(t) and t not in keep:
+            t = names.setdefault(t, '__v%d' % len(names))
+        out.append(t)
+    return ' '.join(out)
+
+
 def compare(prop, item, h, m):
     """Returns None or a dict describing the disagreement relevant to `prop`."""
     spec = PROPS[prop]
@@ -267,6 +282,12 @@ def compare(prop, item, h, m):
         for (hn, ht), (mn, mt) in zip(hr, mr):
             if spec.get('part') == 'header':
                 ht, mt = header(ht), header(mt)
+            if prop != 'C14' and ht != mt:
+                # the names of the macro's temporaries (`__field_a`, `__other`, `__AssertEq`, ..) are only the subject of
+                # C14: elsewhere the comparison is up to a consistent renaming of `__`-prefixed identifiers, so that a
+                # harmless renaming of a temporary in the source does not break the correspondence
+                keep = set(re.findall(r'__\w*', item.rust()))
+                ht, mt = alpha(ht, keep), alpha(mt, keep)
             if hn != mn or ht != mt:
                 hs, ms = ht.split(' '), mt.split(' ')
                 i = next((i for i, (a, b) in enumerate(zip(hs, ms)) if a != b), min(len(hs), len(ms)))
